@@ -34,6 +34,7 @@ THEOREMS = [
     "Typedpy.C07.sync_in_region",
     "Typedpy.C07.mapper_round_trip_region",
     "Typedpy.C07.region_example",
+    "Typedpy.C07.region_all_dict_example",
     "Typedpy.C07.camel_idempotent_ascii",
     "Typedpy.C07.mapper_round_trip_region_ascii",
     "Typedpy.C07.mapper_round_trip_K",
@@ -88,6 +89,8 @@ describe = S.describe
 
 def judge(case, impl, model):
     """the main call and every call of its history are judged alike"""
+    if case.get("oracle") == "map":
+        return S.judge_map(case, impl)
     cd = case["cls"]
     pre = case.get("pre") or []
     hist = ""
